@@ -59,7 +59,10 @@ Inductive agg :=
      a missing cell counts as the text None) and one under the values joined by '|' (dictionary 99, "tally") *)
   | TallyS (i : nat)
   | TallyC (i j : nat)
-  | CounterE (nm : Z) (e : nexp).            (* counter.nm(e): the increment is the argument's value on this line *)
+  | CounterE (nm : Z) (e : nexp)             (* counter.nm(e): the increment is the argument's value on this line *)
+  | CounterEq (nm : Z) (k n : Z)             (* counter.nm(k) == n: the function's value is the counter AFTER this click *)
+  | CountIf (v nm : Z) (c : bexp).           (* @v = count.nm(c): dictionary nm counts the lines per answer of c (keys True / False), on every
+                                                line the component is evaluated on (no onmatch); v gets the count for this line's answer *)
 Inductive action := AssignN (x : Z) (e : nexp) | AssignS (x : Z) (e : sexp) | PushN (k : Z) (e : nexp) | PushS (k : Z) (e : sexp) | Pop (x k : Z)
   | Agg (g : agg).
 Inductive comp := CB (b : bexp) | CAct (a : action) | CWhen (b : bexp) (a : action) | CAgg (g : agg).
@@ -119,7 +122,7 @@ Definition upper_c (c : Z) : Z := if (97 <=? c) && (c <=? 122) then c - 32 else 
 (** counter.nm(...) creates its variable (0) when the csvpath is validated: the matcher is built (and validated) when the
     first line reaches the match part, so a run that offers no line leaves no such variable *)
 Definition agg_init (g : agg) (vs : list (Z * value)) : list (Z * value) :=
-  match g with Counter nm _ | CounterE nm _ => match lookup nm vs with Some _ => vs | None => vs ++ [(nm, VI 0)] end | _ => vs end.
+  match g with Counter nm _ | CounterE nm _ | CounterEq nm _ _ => match lookup nm vs with Some _ => vs | None => vs ++ [(nm, VI 0)] end | _ => vs end.
 Definition comp_init (vs : list (Z * value)) (c : comp) : list (Z * value) :=
   match c with CAgg g | CAct (Agg g) | CWhen _ (Agg g) => agg_init g vs | _ => vs end.
 Definition init_vars (cs : list comp) (vs : list (Z * value)) : list (Z * value) := fold_left comp_init cs vs.
@@ -240,6 +243,8 @@ Section Eval.
 
   (** f"{header value}": the cell's text, or the text None for a cell the record does not have *)
   Definition tally_text (l : line ustring) (i : nat) : ustring := match cell l i with Some t => t | None => [78; 111; 110; 101] end.
+  Definition py_true : ustring := [84; 114; 117; 101].
+  Definition py_false : ustring := [70; 97; 108; 115; 101].
   Definition is_blank_text (t : ustring) : bool := match strip t with [] => true | _ => false end.
 
   Definition do_agg (s : cst) (l : line ustring) (g : agg) : cst * bool :=
@@ -275,6 +280,14 @@ Section Eval.
         (with_mx s (dset m 99 key (VI (num_of (dget m 99 key) + 1))), true)
     | CounterE nm e =>
         (with_mx s (mkMx (update nm (VI (num_of (lookup nm (vars m)) + fst (neval s l e))) (vars m)) (stacks m) (dicts m)), AND)
+    | CounterEq nm k n =>
+        let cnt := num_of (lookup nm (vars m)) + k in
+        (with_mx s (mkMx (update nm (VI cnt) (vars m)) (stacks m) (dicts m)), cnt =? n)
+    | CountIf v nm c =>
+        let key := if beval s l c then py_true else py_false in
+        let cnt := num_of (dget m nm key) + 1 in
+        let m1 := dset m nm key (VI cnt) in
+        (with_mx s (mkMx (update v (VI cnt) (vars m1)) (stacks m1) (dicts m1)), AND)
     end.
 
   Definition do_action (s : cst) (l : line ustring) (a : action) : cst :=
